@@ -156,19 +156,27 @@ def timeouts(cfg):
             "listen": 4 * rwt + 3.0}
 
 
-def converse(cfg, reqs, ress, script, step_budget=20000):
+def converse(cfg, reqs, ress, script, step_budget=20000, medium=None):
     """run one conversation.  cfg: brs lri lrt rwt did nad gbi gbt start seed
     release; reqs/ress: lists of bytes; script: {slot: "lose"|"corrupt"} over
-    the frames that follow activation (slot 0 is the first DEP_REQ)."""
+    the frames that follow activation (slot 0 is the first DEP_REQ).
+    medium: None = two SimDevice frontends on a simdev.Air; or a callable
+    returning (air, initiator frontend, target frontend) where air offers
+    ``fault`` and ``log`` like simdev.Air (e.g. udpair.frontends: the real
+    nfc.clf.udp driver on both sides)."""
     vsched.patch_nfc()
     out = Result()
     tmo = timeouts(cfg)
     s = BudgetSched((), seed=cfg.get("seed", 0), step_budget=step_budget)
     vsched.activate(s)
     try:
-        air = simdev.Air()
-        ci = simdev.frontend(air, "i")
-        ct = simdev.frontend(air, "t")
+        if medium is None:
+            air = simdev.Air()
+            ci = simdev.frontend(air, "i")
+            ct = simdev.frontend(air, "t")
+        else:
+            air, ci, ct = medium()
+        out.air = air
         cv = vsched.VCondition()
         state = {"slot": None}
 
